@@ -828,6 +828,27 @@ class Interp:
                     env[nm] = UNK
                 return ('fall', None)
             return self.block(s.body if _truth(t) else s.orelse, env)
+        if isinstance(s, ast.Break):
+            return ('break', None)
+        if isinstance(s, ast.Continue):
+            return ('continue', None)
+        if isinstance(s, ast.For) and isinstance(s.target, ast.Name) and ((self._assigned([s]) & self.watch) or self._has_return([s])):
+            # a loop over a CONCRETE finite sequence that decides a watched value (`for n in nodes: if n.is_var: flag = False; break`)
+            # is unrolled exactly: one pass per element, break / continue / else as in Python
+            seq = self.ev.ev(s.iter, env)
+            if isinstance(seq, (list, tuple)) and len(seq) <= 32 and not any(x is UNK for x in seq):
+                broke = False
+                for item in seq:
+                    env[s.target.id] = item
+                    r = self.block(s.body, env)
+                    if r[0] == 'break':
+                        broke = True
+                        break
+                    if r[0] in ('return', 'raise'):
+                        return r
+                if not broke and s.orelse:
+                    return self.block(s.orelse, env)
+                return ('fall', None)
         if isinstance(s, (ast.For, ast.While, ast.With, ast.Try, ast.AsyncFor, ast.AsyncWith)):
             touched = self._assigned([s])
             if (touched & self.watch) or self._has_return([s]):
@@ -886,6 +907,35 @@ def _format(template: str, args: List[str], where: str, converted: Optional[Set[
             if m:
                 converted.add(m.group(1))   # rendered as a literal (repr), never as an expression
     return ''.join(out)
+
+
+def fstring_as_format(e: ast.JoinedStr, where: str) -> ast.Call:
+    """The `'<template>'.format(<values>)` call that renders the same text as
+    the f-string `e`: literal parts verbatim (braces doubled), the k-th
+    replacement field as `{k}` / `{k!r}` / `{k!s}` / `{k!a}` fed by the field's
+    own expression.  `format(v, '')` is what both spellings apply, so every
+    reader of str.format templates (construct model, R9's placement tracing)
+    sees an f-string exactly like the equivalent .format call.  A format spec is
+    not read (UnknownIdiom), as in a .format template."""
+    tmpl, args = '', []
+    for part in e.values:
+        if isinstance(part, ast.Constant) and isinstance(part.value, str):
+            tmpl += part.value.replace('{', '{{').replace('}', '}}')
+        elif isinstance(part, ast.FormattedValue):
+            if part.format_spec is not None:
+                raise UnknownIdiom('%s: format spec in %s' % (where, short(e, 60)))
+            conv = {-1: '', 114: '!r', 115: '!s', 97: '!a'}.get(part.conversion)
+            if conv is None:
+                raise UnknownIdiom('%s: conversion in %s' % (where, short(e, 60)))
+            tmpl += '{%d%s}' % (len(args), conv)
+            args.append(part.value)
+        else:
+            raise UnknownIdiom('%s: f-string part in %s' % (where, short(e, 60)))
+    call = ast.Call(func=ast.Attribute(value=ast.Constant(tmpl), attr='format', ctx=ast.Load()), args=args, keywords=[])
+    ast.copy_location(call, e)
+    ast.copy_location(call.func, e)
+    ast.copy_location(call.func.value, e)
+    return call
 
 
 class CxClass:
@@ -982,6 +1032,8 @@ class CxClass:
                 if isinstance(v, str):
                     return v
                 raise UnknownIdiom('%s: name %s' % (where, e.id))
+            if isinstance(e, ast.JoinedStr):
+                return ev(fstring_as_format(e, where))   # f'..{x}..' == '..{0}..'.format(x)
             if isinstance(e, ast.BinOp) and isinstance(e.op, ast.Mult):
                 # indentation: <whitespace constant> * <int expr>
                 for side in (e.left, e.right):
